@@ -10,6 +10,7 @@ run; here they are instantiated at `ℝ`.  The specification side is literal: su
 import SparkxVerif.Lemmas.QC
 import SparkxVerif.Lemmas.QC6
 import SparkxVerif.Lemmas.QCDiff
+import SparkxVerif.Lemmas.QCGen
 import Mathlib.Analysis.SpecialFunctions.Trigonometric.Basic
 
 open ComplexConjugate Finset BigOperators
@@ -329,6 +330,22 @@ theorem dflow_table (rootp : ℝ → ℕ → ℕ → ℝ) (c d : ℝ) :
   · intro h; simp [dflow, nat, h]
   · intro h im; simp [dflow, nat, h]
   · intro h; simp [dflow, nat, h]
+
+/-! ### the same statements for the correlators regenerated from the source text (tie T) -/
+
+/-- `<<2>>`, `<<4>>`, `<<6>>` as translated from the current `__calculate_corr` equal the defining tuple averages -/
+theorem gen_corr_eq (n : ℕ) (evs : List (List ℝ)) :
+    Gen.QCumulant.corr2 (evs.map (unitsEv n)) =
+      (evs.map (cosSum 2 ![1, -1] n)).sum / (evs.map (fun φs => tupleCount 2 φs.length)).sum ∧
+    Gen.QCumulant.corr4 (evs.map (unitsEv n)) =
+      (evs.map (cosSum 4 ![1, 1, -1, -1] n)).sum / (evs.map (fun φs => tupleCount 4 φs.length)).sum ∧
+    ((∀ φs ∈ evs, 6 ≤ φs.length) →
+      Gen.QCumulant.corr6 (evs.map (unitsEv n)) =
+        (evs.map (cosSum 6 ![1, 1, 1, -1, -1, -1] n)).sum / (evs.map (fun φs => tupleCount 6 φs.length)).sum) := by
+  refine ⟨?_, ?_, ?_⟩
+  · rw [QCGen.corr2_gen]; exact corr2_eq n evs
+  · rw [QCGen.corr4_gen]; exact corr4_eq n evs
+  · intro h; rw [QCGen.corr6_gen]; exact corr6_eq n evs h
 
 /-! ### non-vacuity: a concrete non-trivial sample meets the hypotheses -/
 
